@@ -503,6 +503,8 @@ def tieStep (_ : Unit) (ts : List String) : Unit × String :=
           | some l => some ("S2L", l.toCy == q, l.base.wf)
           | none => match C01.ofCyWith q with
           | some w => some ("S3a", w.toCy == q, w.wf)
+          | none => match C01.ofCyWithHop q with
+          | some w => some ("S3b", w.toCy == q, w.wf)
           | none => match C01.ofCy q with
           | some s1 => some ("S1", s1.toCy == q, s1.wf)
           | none => match C01.ofCy2 q with
